@@ -47,20 +47,20 @@ FrameOctets(type, opts, meta, sq, addr, bs, payload) ==
     IN h \o (IF Has(opts, O_HDCRC) THEN hdc ELSE <<>>) \o (IF Has(opts, O_PLCRC) THEN plc ELSE <<>>) \o payload
 
 SlipEsc(o) == IF o = 192 THEN <<219, 220>> ELSE IF o = 219 THEN <<219, 221>> ELSE <<o>>
-RECURSIVE SlipBody(_)
-SlipBody(s) == IF s = <<>> THEN <<>> ELSE SlipEsc(Head(s)) \o SlipBody(Tail(s))
+\* (a fold, not a recursion over Tail: frames of 64 KiB and more are part of the C08 family)
+SlipBody(s) == FoldLeft(LAMBDA acc, o : acc \o SlipEsc(o), <<>>, s)
 RECURSIVE VarintOf(_)
 VarintOf(n) == IF n < 128 THEN <<n>> ELSE <<128 + (n % 128)>> \o VarintOf(n \div 128)
 Wire(tr, frame) == IF tr = 0 THEN SlipBody(frame) \o <<192>> ELSE VarintOf(Len(frame)) \o frame
 
 (* requests: word size 8 or 16; block size n (words); payload octets for writes *)
 Request(tr, isWrite, ws16, sq, addr, n, payload) ==
-    FrameOctets(IF isWrite THEN T_WREQ ELSE T_RREQ, Opts(tr, ws16, isWrite /\ payload # <<>>), 0, sq, addr, <<0, n>>, payload)
+    FrameOctets(IF isWrite THEN T_WREQ ELSE T_RREQ, Opts(tr, ws16, isWrite /\ payload # <<>>), 0, sq, addr, <<n \div 65536, n % 65536>>, payload)
 (* responses mirror sequence and address; type = request type + 1 *)
 RespType(reqType) == IF reqType = T_RREQ THEN T_RRESP ELSE IF reqType = T_WREQ THEN T_WRESP ELSE T_META
 (* acknowledgement: word size of the attached memory; block size = words delivered *)
 AckResponse(tr, reqType, mem16, sq, addr, n, payload) ==
-    FrameOctets(RespType(reqType), Opts(tr, mem16, payload # <<>>), ACK, sq, addr, <<0, n>>, payload)
+    FrameOctets(RespType(reqType), Opts(tr, mem16, payload # <<>>), ACK, sq, addr, <<n \div 65536, n % 65536>>, payload)
 (* error responses: octet semantics; a 32-bit big-endian payload where the document prescribes one *)
 ErrResponse(tr, reqType, code, sq, addr, val) ==
     IF WithAddress(code) \/ WithSize(code)
@@ -91,7 +91,7 @@ WordSize(opts) == IF Has(opts, O_WS16) THEN 2 ELSE 1
 PlSizeOK(o) == LET f == Fields(o)
                    pl == PayloadOf(o)
                IN IF f.type \in {T_RREQ, T_META} THEN pl = <<>>
-                  ELSE f.bs[1] = 0 /\ f.bs[2] * WordSize(f.opts) = Len(pl)
+                  ELSE f.bs[1] < 16384 /\ (f.bs[1] * 65536 + f.bs[2]) * WordSize(f.opts) = Len(pl)        \* (sizes the model can count: below 2^30 words)
 PlCrcOK(o) == LET f == Fields(o)
               IN ~Has(f.opts, O_PLCRC) \/ Word(o, IF Has(f.opts, O_HDCRC) THEN 15 ELSE 13) = Buffer(0, PayloadOf(o))
 (* verdict classes: 0 ok, 74 bad header encoding, 84 bad header checksum, 14 implausible payload size,
